@@ -25,6 +25,7 @@ The functions get the value of the data type as string and return the correct ob
 """
 
 from __future__ import absolute_import
+import re
 from decimal import Decimal, InvalidOperation
 from types import FunctionType
 
@@ -314,6 +315,9 @@ def numeric_factory(value, datatype_cls, validation_level=None):
     """
     if not value:
         return datatype_cls(validation_level=validation_level)
+    # Decimal() also takes exponents, NaN, Infinity, underscores, blanks and non ASCII digits, which are not NM values
+    if isinstance(value, str) and not re.match(r'^[+-]?([0-9]+\.?[0-9]*|\.[0-9]+)$', value):
+        raise ValueError('{0} is not an HL7 valid NM value'.format(value))
     try:
         return datatype_cls(Decimal(value), validation_level=validation_level)
     except InvalidOperation:
@@ -344,6 +348,9 @@ def sequence_id_factory(value, datatype_cls, validation_level=None):
     """
     if not value:
         return datatype_cls(validation_level=validation_level)
+    # int() also takes a minus sign, underscores, blanks and non ASCII digits, which are not SI values
+    if isinstance(value, str) and not re.match(r'^\+?[0-9]+$', value):
+        raise ValueError('{0} is not an HL7 valid SI value'.format(value))
     try:
         return datatype_cls(int(value), validation_level=validation_level)
     except ValueError:
